@@ -47,8 +47,10 @@ def gen(rng, tier, prop):
         r = rng.random()
         if r < 0.40:
             ops.append({'op': 'rnd', 'n': rng.randint(1, 5), 'via': rng.choice(['eval', 'var', 'prog'])})
+        elif r < 0.44:
+            ops.append({'op': 'rnd0', 'x': rng.choice(['0', '0', '-0', '-Z!', '-1E-39', '0*-1', '-Z#', 'Z!', '-4E-39+3E-39', 'CVS(MKS$(0))', '-(Z%)'])})
         elif r < 0.47:
-            ops.append({'op': 'rnd0'})
+            ops.append({'op': 'rndpair', 'f': rng.choice(['RND-RND', 'RND(1)-RND', 'RND-RND(2.5)'])})
         elif r < 0.54:
             ops.append({'op': 'rndpos', 'x': rng.choice(['1', '2.5', '1E10', '.001', '32767'])})
         elif r < 0.64:
@@ -152,12 +154,30 @@ def _arm(run, w, cfg, ops, memo, arm_no):
                         v = d.get(b'Q!')
                     observe(v)
             elif k == 'rnd0':
-                v = d.eval(b'RND(0)')
+                # any argument that BASIC treats as zero (prints 0, =0 is true), also one that carries a sign bit
+                x = b(op.get('x', '0'))
+                d.exec(b'Z!=0:Z#=0:Z%=0')
+                v = d.eval(b'RND(' + x + b')')
                 if m.s is not None:
                     observe(v, stepped=False)
-                v2 = d.eval(b'RND(0)')
+                v2 = d.eval(b'RND(' + x + b')')
                 if v2 != v:
-                    run.violate('C39', 'rnd0-not-repeating', 'RND(0) gave %r then %r' % (v, v2))
+                    run.violate('C39', 'rnd0-not-repeating', 'RND(%s) gave %r then %r' % (op.get('x', '0'), v, v2))
+            elif k == 'rndpair':
+                # two values alive in one expression: each must be its own seed / 2^24
+                if m.s is not None:
+                    m.step()
+                    s1 = m.s
+                    m.step()
+                    s2 = m.s
+                    v = d.eval(b(op['f']))
+                    run.probe('pairs_checked')
+                    if v != (s1 - s2) / float(M):
+                        run.violate('C39', 'two-values-in-one-expression', '%s gave %r, expected %d/2^24 - %d/2^24 = %r' % (
+                            op['f'], v, s1, s2, (s1 - s2) / float(M)))
+                else:
+                    d.eval(b(op['f']))
+                    m.s = None
             elif k == 'rndpos':
                 m.step()
                 observe(d.eval(b'RND(' + b(op['x']) + b')'))
